@@ -94,6 +94,23 @@ let run (f : string list) : string =
       (* the stored address and prefix length of the text a.b.c.d/l; the driver refuses lengths above 32 *)
       if int_of_string l > 32 then "E"
       else let (x, y) = ip4p_store (n_of_dec a) (n_of_dec l) in dec_of_n x ^ " " ^ dec_of_n y
+  | "iidp" :: _ :: _ :: toks ->
+      (* the path as a structure: S <hex module> <hex name> | K <hex key> <hex value> | L <hex value> | P <position>;
+         printed by IidCanon.iid_print, then read back and printed again *)
+      let rec segs toks cur acc =
+        let flush () = match cur with None -> acc | Some (m, n, ps) -> (((m, n), List.rev ps) :: acc) in
+        match toks with
+        | [] -> List.rev (flush ())
+        | "S" :: m :: n :: r -> segs r (Some (unhex m, unhex n, [])) (flush ())
+        | "K" :: k :: v :: r -> (match cur with Some (m, n, ps) -> segs r (Some (m, n, PKey (unhex k, unhex v) :: ps)) acc | None -> [])
+        | "L" :: v :: r -> (match cur with Some (m, n, ps) -> segs r (Some (m, n, PLeaf (unhex v) :: ps)) acc | None -> [])
+        | "P" :: d :: r -> (match cur with Some (m, n, ps) -> segs r (Some (m, n, PPos (n_of_dec d) :: ps)) acc | None -> [])
+        | _ -> [] in
+      let p = segs toks None [] in
+      let c1 = iid_print p in
+      (match iid_parse c1 with
+       | Some q -> hex c1 ^ " " ^ hex (iid_print q)
+       | None -> hex c1 ^ " P")
   | _ -> "?"
 
 let () = main_loop run
